@@ -62,8 +62,15 @@ def check_save(rep, repo):
         rep.ev("SAVE-file", dumps[0], okf, "the pickle must be written, once, to the named file opened with mode 'wb' "
                "(append or text mode leaves a stale or unreadable file)")
     ws = write_summaries(repo)
+    def own_of_copy(t):
+        """an attribute (or a `__dict__` entry) of a shallow copy itself: the copy has its own attribute table, so rebinding one
+        of its attributes leaves the original alone (writing INTO an object both share would not)"""
+        is_copy = lambda r: r[0] == "alloc" and r[1] == "copy.copy" and r[2] == (("self",),)
+        if t[0] == "attr" and is_copy(t[1]):
+            return True
+        return t[0] == "idx" and t[1][0] == "attr" and t[1][2] == "__dict__" and is_copy(t[1][1])
     for e in w.events:
-        if e.kind == "store" and shares_model(e.target):
+        if e.kind == "store" and shares_model(e.target) and not (own_of_copy(e.target) and not e.aug):
             rep.ev("SAVE-pure", e, False, "saving alters the model: store on the object being saved")
         if e.kind == "call" and e.target is not None and e.target[0] == "attr" and shares_model(e.target[1]):
             meth = e.target[2]
@@ -74,6 +81,8 @@ def check_save(rep, repo):
     # "its copy" made with np.asarray)
     from ..rules_premise import inplace_writes
     for e, r, how in inplace_writes(w, shares_model):
+        if e.kind == "store" and own_of_copy(e.target):
+            continue
         rep.ev("SAVE-pure", e, False, f"saving alters the model: {how} on '{show(r)[:60]}', which the object being saved holds")
     rep.fn("SAVE-pure-summary", fi, "save has an empty write set on the model", True)
 
